@@ -56,6 +56,16 @@ Theorem C20_dict_roundtrip : forall r, valid_res r -> from_dict (to_dict r) = Ok
 Proof. exact dict_roundtrip. Qed.
 Print Assumptions C20_dict_roundtrip.
 
+Example C20_dict_roundtrip_example :
+  let r := mkR None (Some 4%Z) (Some 2%Z) (Some (s "0.5tb")) (Some 0%Z) (Some (s "1:12:00:00")) (Some (s "gpu"))
+               [(s "qos", XStr (s "high")); (s "n", XInt 3%Z)] (s "internal") in
+  valid_res r /\ nodup_keys (extra_args r) = true
+  /\ to_dict r = [(s "cpus_per_node", UInt 4%Z); (s "nodes", UInt 2%Z); (s "memory", UStr (s "0.5tb"));
+                  (s "gpus", UInt 0%Z); (s "time", UStr (s "1:12:00:00")); (s "partition", UStr (s "gpu"));
+                  (s "extra_args", UDict [(s "qos", XStr (s "high")); (s "n", XInt 3%Z)]);
+                  (s "parallelization_mode", UStr (s "internal"))].
+Proof. split; [apply sp_valid_iff; reflexivity|split; reflexivity]. Qed.
+
 (* to_slurm_options mentions every set quantity.  Full statement:
      forall r, valid_res r -> mentions_all r (to_slurm_options r)
    is FALSE of the code (known finding slurm-gpus-zero-omitted): *)
@@ -108,6 +118,14 @@ Theorem C20_nested_resources_upper_bound : forall ch, Forall valid_res (somes ch
   /\ snd (fst (maybe_max_resources ENone ch)) = ch.
 Proof. exact maybe_max_upper_bound. Qed.
 Print Assumptions C20_nested_resources_upper_bound.
+
+Example C20_nested_resources_example :
+  let a := mkR (Some 2%Z) None None (Some (s "1GB")) None (Some (s "59:59")) None [] (s "external") in
+  let b := mkR None None None (Some (s "1000MB")) (Some 1%Z) (Some (s "1:00:00")) None [] (s "external") in
+  Forall valid_res (somes [Some a; None; Some b])
+  /\ fst (fst (maybe_max_resources ENone [Some a; None; Some b]))
+     = Some (Ok (mkR (Some 2%Z) None None (Some (s "1GB")) (Some 1%Z) (Some (s "1:00:00")) None [] (s "external"))).
+Proof. split; [repeat constructor; apply sp_valid_iff; reflexivity|reflexivity]. Qed.
 
 (* Python's == on the round-tripped value (dict equality ignores order; extra_args is a dict: unique keys) *)
 Theorem C20_dict_roundtrip_eq : forall r, valid_res r -> nodup_keys (extra_args r) = true ->
